@@ -32,7 +32,7 @@ LINK_asan-default := -fsanitize=address,undefined
 LINK_asan-nosba := -fsanitize=address,undefined
 
 all: $(foreach v,$(VARIANTS),$(B)/$(v)/simcheck)
-sim: $(B)/sim-default/simcheck $(B)/sim-tiny/simcheck
+sim: $(B)/sim-default/simcheck $(B)/sim-tiny/simcheck $(B)/fine-default/simcheck
 
 define VARIANT_RULES
 $(B)/$(1)/disp/%.o: $(REPO)/dispenso/%.cpp
